@@ -28,7 +28,7 @@ BUILTIN_COQ = ["BInt", "BFloat", "BStr", "BBool", "BDatetime", "BNoneType"]
 ORIGINS = ["None", "Union", "Optional", "UnionType", "List", "Set", "Tuple", "Sequence", "Type", "Dict"]
 ORIGIN_COQ = ["ONone", "OUnion", "OOptional", "OUnionType", "OList", "OSet", "OTuple", "OSeq", "OType", "ODict"]
 EXN = {"TypeError": 1, "ValueError": 2, "IndexError": 3, "AttributeError": 4, "MissingContainedTypeOfContainer": 5,
-       "NameError": 6, "StopIteration": 7}
+       "NameError": 6, "StopIteration": 7, "TypeResolutionError": 8}
 PRED_NAMES = ["is_builtin_type", "is_optional", "is_enum", "is_container", "is_one_to_one_relationship",
               "is_one_to_many_relationship", "is_type_type", "is_iterable", "type_endpoint",
               "is_collection_of_builtins", "is_role_taker", "container_type", "contained_type"]
@@ -448,7 +448,9 @@ Definition D (n : positive) (k : dkind) (bs : list name) (fs : list fdecl) (hid 
 Definition case_sx (p : prog) (cs : list name) (ops : list nat) : sx :=
   SL [SB (wf_prog p && wf_classes p cs); spec_sx p cs]."""
 
-SCRATCH = core.WORK / PROP
+# one scratch directory per run, so that concurrent checks (seeded runs, several seeds) do not overwrite each other
+RUN = f"{PROP}/run_{os.getpid()}"
+SCRATCH = core.WORK / RUN
 
 
 def cb(b) -> str:
@@ -698,7 +700,7 @@ def gen_program(rng, stream: str) -> dict:
                 continue
         if stream == "typecheck":
             # the first k declarations form a module that sees the rest only under TYPE_CHECKING
-            if any(len(d["bases"]) > 1 for d in decls) or len(decls) < 2:
+            if len(decls) < 2:
                 continue
             k = rng.randint(1, len(decls) - 1)
             later = [d["name"] for d in decls[k:]]
@@ -858,11 +860,11 @@ def check_classification(rep, model_ok: bool, kf_classes: set, depth: int = 2) -
     kinds = {d["name"]: d["kind"] for d in case["decls"]}
     prog = prog_coq(CLASSIFY_DECLS, ids)
     fields = [f for d in case["decls"] if d["name"].startswith("H") for f in d["fields"]]
-    spec_vals = core.coq_values(PROP, HEADER_SPEC, [f"spec_kind_sx {ty_coq(ty_resolve(tt(f['ann']), kinds), ids)}" for f in fields],
+    spec_vals = core.coq_values(RUN, HEADER_SPEC, [f"spec_kind_sx {ty_coq(ty_resolve(tt(f['ann']), kinds), ids)}" for f in fields],
                                 chunk=400, tag="cls_spec")
     model_vals = None
     if model_ok:
-        model_vals = core.coq_values(PROP, HEADER, [
+        model_vals = core.coq_values(RUN, HEADER, [
             f"classify_sx {prog} {ty_coq(tt(f['ann']), ids)} {cb(f['default'] == 'value')} {cb(f['default'] == 'factory')}"
             for f in fields], chunk=400, tag="cls_model")
     bad_model = []
@@ -945,7 +947,7 @@ def check_diagrams(rep, cases: List[dict], model_ok: bool, kf_classes: set, tag:
             return getattr(real_rep, a)
 
     real_rep, rep = rep, _Capped()
-    vals = core.coq_values(PROP, header, [case_coq(c) for c in cases], chunk=20, tag=tag + "_coq")
+    vals = core.coq_values(RUN, header, [case_coq(c) for c in cases], chunk=20, tag=tag + "_coq")
     dist = {"cases": len(cases), "invalid": 0, "in_F": 0, "streams": {}, "variants": {}, "classes": {}, "edges_inh": 0,
             "edges_assoc": 0, "ops": 0, "sub_ops": 0, "sub_that_removed": 0, "build_raises": 0, "kf_instances": {}}
     kind_exprs: Dict[str, Tuple[str, Any]] = {}
@@ -994,9 +996,6 @@ def check_diagrams(rep, cases: List[dict], model_ok: bool, kf_classes: set, tag:
                 if cls == "other" or (cls == "K_union_none_first" and (cls not in kf_classes or (model_ok and impl != model))):
                     rep.violation(dict(base, kind="counterexample", part="edges", impl=impl, spec=pyspec, model=model,
                                        explanation="differs from the independent reading in a way no listed class explains"))
-        elif st == "typecheck" and reference is not None and impl != reference and impl == [1, EXN["NameError"]] \
-                and model_ok and impl == model and "K_two_unresolved" in kf_classes:
-            dist["kf_instances"]["K_two_unresolved"] = dist["kf_instances"].get("K_two_unresolved", 0) + 1
         elif reference is not None and impl != reference:
             rep.violation(dict(base, kind="counterexample", part="edges", impl=impl, spec=reference, model=model, in_F=in_f,
                                explanation="graph encoding: [0, [nodes in order, sorted edges [kind 0 inh/1 assoc, source, target, field]]] or [1, exception]; names are numbered by case['ids']",
@@ -1075,7 +1074,7 @@ def check_diagrams(rep, cases: List[dict], model_ok: bool, kf_classes: set, tag:
     # classification of the generated fields against the Spec
     items = list(kind_exprs.values())
     if items:
-        svals = core.coq_values(PROP, HEADER_SPEC, [f"spec_kind_sx {ty_coq(rt, c['ids'])}" for rt, _, c, _ in items],
+        svals = core.coq_values(RUN, HEADER_SPEC, [f"spec_kind_sx {ty_coq(rt, c['ids'])}" for rt, _, c, _ in items],
                                 chunk=400, tag=tag + "_kinds")
         for (rt, pv, c, fk), sv in zip(items, svals):
             if pv != sv:
@@ -1116,7 +1115,7 @@ def replay_finding(rep, f, model_ok: bool) -> None:
     w = json.loads((core.VERIF / f.witness).read_text())
     case = finish_case(dict(w["case"]))
     r = run_worker_batch([case], "kf_" + f.cls)[0]
-    v = core.coq_values(PROP, HEADER if model_ok else HEADER_SPEC, [case_coq(case)], tag="kf_" + f.cls)[0]
+    v = core.coq_values(RUN, HEADER if model_ok else HEADER_SPEC, [case_coq(case)], tag="kf_" + f.cls)[0]
     impl = r.get("build")
     pyspec = [0, r.get("pyspec")]
     model = v[2][0] if model_ok else None
@@ -1138,8 +1137,6 @@ def replay_finding(rep, f, model_ok: bool) -> None:
             return
     if f.cls in ("K_union_none_first", "K_two_unresolved"):
         still = impl != pyspec and (not model_ok or impl == model)
-        if f.cls == "K_two_unresolved":
-            still = still and impl == [1, EXN["NameError"]]
         if f.kind == "open":
             if still:
                 rep.known(f)
@@ -1158,6 +1155,14 @@ def replay_finding(rep, f, model_ok: bool) -> None:
 
 # ---------------------------------------------------------------------------------------- entry
 def run(tier: str, seed: int, replay=None) -> int:
+    import shutil
+    try:
+        return _run(tier, seed, replay)
+    finally:
+        shutil.rmtree(SCRATCH, ignore_errors=True)
+
+
+def _run(tier: str, seed: int, replay=None) -> int:
     from translator import t_fieldkind
     rep = core.Report(PROP, tier, seed, "proof")
     rep.trusted = core.COQ_TRUSTED + [
